@@ -215,3 +215,19 @@ Print Assumptions C07_reachable_hist.
 Theorem C07_control_eq : forall j1 j2 : nat, Nat.eqb j1 j2 = true <-> j1 = j2.
 Proof. exact control_eq. Qed.
 Print Assumptions C07_control_eq.
+
+(* AsyncScheduler.remove_all() = the history "cancel every queued job, from the back of the queue to the front"
+   (tied to the implementation by the twin-scheduler scenario of harness/sched_async.py): from every reachable
+   state it empties the queue, disarms the timer, finishes exactly the queued jobs, executes nothing. *)
+From EAS Require Import SchedRemoveAll.
+Theorem C07_remove_all_spec :
+  forall E f hs s, Inv s ->
+  let '(s', rs) := remove_all E (S (S f)) hs s in
+  Inv s' /\ queue s' = [] /\ timer s' = None /\
+  Forall (fun r => r = Done) rs /\
+  (forall j, In j (queue s) -> jstatus (jobs s' j) = Finished /\ jnext (jobs s' j) = None /\ jlinked (jobs s' j) = false) /\
+  (forall j, ~ In j (queue s) -> jobs s' j = jobs s j) /\
+  count_all_exec (log s') = count_all_exec (log s) /\
+  now s' = now s /\ enabled s' = enabled s /\ njobs s' = njobs s.
+Proof. exact remove_all_spec. Qed.
+Print Assumptions C07_remove_all_spec.
